@@ -1287,7 +1287,15 @@ int safec_vsnprintf_s(out_fct_type out, const char *funcname, char *buffer,
                     invoke_safe_str_constraint_handler(msg, buffer, ESNULLP);
                     return -(ESNULLP);
                 }
-                l = wcsnlen_s(lp, precision ? precision : RSIZE_MAX_WSTR);
+                /* the length in bytes of the converted string; a precision
+                   limits the bytes written (without splitting a character) */
+                len = wcstombs(NULL, lp, 0);
+                if (len != (size_t)-1 && (flags & FLAGS_PRECISION) &&
+                    len > precision)
+                    len = precision;
+                if (len == (size_t)-1)
+                    len = 0; /* reported by the conversion below */
+                l = (unsigned int)len;
                 p = (char *)malloc(l + 1);
                 if (!p) {
                     char msg[80];
@@ -1296,7 +1304,11 @@ int safec_vsnprintf_s(out_fct_type out, const char *funcname, char *buffer,
                     invoke_safe_str_constraint_handler(msg, buffer, 1);
                     return -1;
                 }
-                err = wcstombs_s(&len, p, l + 1, lp, l);
+                errno = 0;
+                len = wcstombs(p, lp, l);
+                err = (len == (size_t)-1) ? (errno ? errno : EILSEQ) : EOK;
+                if (err == EOK)
+                    p[len] = '\0';
                 if (err != EOK) {
                     char msg[80];
                     snprintf(msg, sizeof msg,
